@@ -437,25 +437,121 @@ func (b *bounder) factsAt(blk *ssa.BasicBlock) []lin {
 	return out
 }
 
-// bufEpoch names the length of a bytes.Buffer as observed by a Len()/Bytes() call: calls on the same buffer in the same
-// block with no other call between them observe the same length (bytes.Buffer contract: len(b.Bytes()) == b.Len()).
+// bufEpoch names the length of a bytes.Buffer as observed by a Len()/Bytes() call: two observations of the same buffer
+// with nothing between them that could touch it (any other call, a store to the buffer expression) on any path see the
+// same length (bytes.Buffer contract: len(b.Bytes()) == b.Len()). The name is that of the earliest observation that
+// dominates this one with only clean paths in between.
 func (b *bounder) bufEpoch(call *ssa.Call) string {
 	b.used["S7: bytes.Buffer contract: len(b.Bytes()) == b.Len() with no call in between"] = true
 	recv := b.c.Expr(call.Call.Args[0])
-	epoch := 0
-	for _, i := range call.Block().Instrs {
-		if i == ssa.Instruction(call) {
-			break
+	fn := call.Parent()
+	isObs := func(i ssa.Instruction) bool {
+		cc, ok := i.(*ssa.Call)
+		if !ok {
+			return false
 		}
+		n := calleeName(&cc.Call)
+		return (n == "(*bytes.Buffer).Len" || n == "(*bytes.Buffer).Bytes") && b.c.Expr(cc.Call.Args[0]) == recv
+	}
+	dirty := func(i ssa.Instruction) bool {
 		if cc := callOf(i); cc != nil {
 			switch calleeName(cc) {
 			case "(*bytes.Buffer).Len", "(*bytes.Buffer).Bytes", "builtin.len", "builtin.cap":
-			default:
-				epoch++
+				return false
+			}
+			return true
+		}
+		if st, ok := i.(*ssa.Store); ok {
+			return strings.HasPrefix(b.c.Expr(st.Addr), recv)
+		}
+		return false
+	}
+	reach := func(from *ssa.BasicBlock) map[*ssa.BasicBlock]bool {
+		seen := map[*ssa.BasicBlock]bool{}
+		st := append([]*ssa.BasicBlock{}, from.Succs...)
+		for len(st) > 0 {
+			x := st[len(st)-1]
+			st = st[:len(st)-1]
+			if seen[x] {
+				continue
+			}
+			seen[x] = true
+			st = append(st, x.Succs...)
+		}
+		return seen
+	}
+	cleanBetween := func(y, x ssa.Instruction) bool {
+		yb, xb := y.Block(), x.Block()
+		fromY := reach(yb)
+		if yb == xb && !fromY[yb] {
+			on := false
+			for _, i := range yb.Instrs {
+				if i == x {
+					return true
+				}
+				if on && dirty(i) {
+					return false
+				}
+				if i == y {
+					on = true
+				}
+			}
+			return false
+		}
+		// blocks on some path from y to x: reachable from y's block and reaching x's block
+		for _, blk := range fn.Blocks {
+			mid := fromY[blk] && (blk == xb || reach(blk)[xb])
+			whole := mid && blk != xb && blk != yb
+			if blk == xb && fromY[xb] && reach(xb)[xb] {
+				whole = true // x's block lies on a cycle: a path can run through all of it before reaching x
+			}
+			if blk == yb && fromY[yb] {
+				whole = true
+			}
+			for _, i := range blk.Instrs {
+				if blk == xb && !whole && i == x {
+					break
+				}
+				if whole || blk == xb || (blk == yb && false) {
+					if i != x && i != y && dirty(i) {
+						return false
+					}
+				}
+			}
+		}
+		// the rest of y's block after y
+		on := false
+		for _, i := range yb.Instrs {
+			if on && i != x && dirty(i) {
+				return false
+			}
+			if i == y {
+				on = true
+			}
+			if i == x {
+				break
+			}
+		}
+		return true
+	}
+	var rep ssa.Instruction = call
+	for _, blk := range fn.Blocks {
+		for _, i := range blk.Instrs {
+			if i == ssa.Instruction(call) || !isObs(i) || !instrDominates(i, call) {
+				continue
+			}
+			if cleanBetween(i, call) && instrDominates(i, rep) {
+				rep = i
 			}
 		}
 	}
-	n := fmt.Sprintf("buflen:%s@%s.b%d.%d", recv, call.Parent().Name(), call.Block().Index, epoch)
+	idx := 0
+	for k, i := range rep.Block().Instrs {
+		if i == rep {
+			idx = k
+		}
+	}
+	n := fmt.Sprintf("buflen:%s@%s.b%d.%d", recv, fn.Name(), rep.Block().Index, idx)
 	b.lower[n] = 0
 	return n
 }
